@@ -46,9 +46,11 @@ package cmd
 //@ func evaluateSequence
 //@   props C12 C19
 //@   noframe
+//@   nosafety // cobra/flag plumbing with many callees outside the contract set: panic-freedom not claimed
 //@   ensures @failure-leaves-file implies(cmdError != nil, targetState == old(targetState))
 
 //@ func evaluateAll
 //@   props C12 C19
 //@   noframe
+//@   nosafety // cobra/flag plumbing with many callees outside the contract set: panic-freedom not claimed
 //@   ensures @failure-leaves-file implies(cmdError != nil, targetState == old(targetState))
